@@ -207,7 +207,7 @@ def values_equal(a, b):
     if isinstance(a, Fresh) or isinstance(b, Fresh):
         if isinstance(a, Fresh) and isinstance(b, Fresh):
             return a == b
-        if isinstance(a, (Const, New, ListV, DictV, SelfV, Sym)) or isinstance(b, (Const, New, ListV, DictV, SelfV, Sym)):
+        if isinstance(a, (Const, New, ListV, DictV, SelfV, Sym, tuple)) or isinstance(b, (Const, New, ListV, DictV, SelfV, Sym, tuple)):
             # (an input of the evaluated function is never an object created by the evaluated code itself)
             return False
     if isinstance(a, ListV) and isinstance(b, ListV):
@@ -399,6 +399,9 @@ class SymEx:
             return (None, st)
         if isinstance(v, SelfV):
             return (st, None) if v.cls.name in sub else (None, st)
+        if isinstance(v, tuple) and v and v[0] in ('func', 'bound', 'lambda', 'method', 'attrgetter', 'itemgetter') and \
+                all(n in ('str', 'int', 'list', 'dict', 'tuple', 'bool', 'float', 'bytes', 'set', 'frozenset') for n in cls_names):
+            return (None, st)           # a function is none of the data types
         t, f = st.copy(), st.copy()
         t.truth.append(('isinstance(%r, %s)' % (v, '|'.join(cls_names)), True))
         f.truth.append(('isinstance(%r, %s)' % (v, '|'.join(cls_names)), False))
@@ -1068,7 +1071,16 @@ class SymEx:
                     out.append((s2, CallV('slice', [b, lo, hi])))
                 continue
             for s3, i in self.ev(e.slice, s2, func):
-                if isinstance(b, ListV) and isinstance(i, Const) and isinstance(i.v, int) and -len(b.items) <= i.v < len(b.items):
+                if isinstance(b, tuple) and b and b[0] == 'globals' and isinstance(i, Const) and isinstance(i.v, str) and i.v.isidentifier():
+                    # globals()['name'] is the module-level name
+                    nm = ast.copy_location(ast.Name(id=i.v, ctx=ast.Load()), e)
+                    saved = s3.env
+                    s3.env = {}
+                    res = self.ev(nm, s3, b[1])
+                    for s4, _ in res:
+                        s4.env = saved
+                    out.extend(res)
+                elif isinstance(b, ListV) and isinstance(i, Const) and isinstance(i.v, int) and -len(b.items) <= i.v < len(b.items):
                     out.append((s3, b.items[i.v]))
                 elif isinstance(b, DictV):
                     hit = None
@@ -1425,6 +1437,8 @@ class SymEx:
                 if not any(values_equal(k, q[0]) is True for q in d.pairs):
                     d.pairs.append([k, args[1] if len(args) > 1 else Const(None)])
             return [(st, d)]
+        if isinstance(e.func, ast.Name) and e.func.id == 'globals' and not args:
+            return [(st, ('globals', func.module if hasattr(func, 'module') else func))]
         if isinstance(e.func, ast.Name):
             r = self.builtin(e.func.id, args, kw, st, e)
             if r is not None:
